@@ -309,12 +309,13 @@ def handleE2E (i o : List String) : String :=
         match r.origin, r.err with
         | some _, some e =>
           if gone499 then none     -- client gone: nothing is promised
-          else if failureOk e r.bound negotiated obs.status (obs.ct.bind List.head?) obs.body ⟨obs.ds⟩ then
+          else match failureWhy e r.bound negotiated obs.status (obs.ct.bind List.head?) obs.body ⟨obs.ds⟩ with
+          | none =>
             (if injectedRendered && !isInfix sc.err.rawMessage (match obs.ds with | some s => s.msg | none => obs.body)
               then some "message-not-carried" else none)
-          else
+          | some why =>
             let st := convert e
-            some s!"failure-rendering want status={wantStatus e} bound={r.bound} encodable={encodable negotiated st} negotiated={bytesToString negotiated} msg={toHex st.msg}"
+            some s!"failure-rendering:{why} origin={showOrigin r.origin} want-status={wantStatus e} bound={r.bound} encodable={encodable negotiated st} negotiated={bytesToString negotiated} code={st.code} msg={toHex st.msg}"
         | _, _ =>
           if obs.status != 200 then some "success-status"
           else match r.body with
